@@ -106,7 +106,13 @@ DelSeeds(tabs, fks, t, sel, k, r) ==
   ELSE LET i == sel[k] IN
        IF i \notin r.w.alive[t] THEN DelSeeds(tabs, fks, t, sel, k + 1, r)     \* already gone by a cascade
        ELSE LET pend == [NoPend(tabs) EXCEPT ![t] = {sel[x] : x \in (k + 1)..Len(sel)}]
-                r1 == [r EXCEPT !.w.alive[t] = @ \ {i}, !.q = <<DelEv(t, i, r.w.val[t][i])>>]
+                row == r.w.val[t][i]
+                \* a row that references ITSELF under RESTRICT / NO ACTION: whether it can be deleted is left open
+                selfv == IF \E fi \in FkParents(fks, t) :
+                               /\ fks[fi].child = t /\ fks[fi].ondel \in {"restrict", "noaction"}
+                               /\ ~HasNullKey(KeyOf(row, fks[fi].ccols)) /\ KeyOf(row, fks[fi].ccols) = KeyOf(row, fks[fi].pcols)
+                         THEN {"soft"} ELSE {}
+                r1 == [r EXCEPT !.w.alive[t] = @ \ {i}, !.q = <<DelEv(t, i, row)>>, !.viol = @ \cup selfv]
             IN DelSeeds(tabs, fks, t, sel, k + 1, RunQ(tabs, fks, r1, pend, Fuel))
 
 \* ------------------------------------------------------------------ child-side check of a new / changed row
